@@ -13,7 +13,7 @@ RULE = ("(a) exhaustive small scope: all 256 subsets of an 8-key universe as dic
         "0..4000 on domains/strings of 8 sizes in exact-size user buffers; (f) continued access (COObjRd/WrBufStart + ...Cont) in random chunks that run up to and beyond the end of exact-size domains/strings; distinct non-trivial = lookups with a hit + typed + buffer cases")
 ASSUMPTIONS = ["dictionaries are sorted, unique and end-marked (precondition in the statement)",
                "buffer API: content and length checked on domains and strings; on the CiA 301 system entries only that no more than the requested length is moved (exact-size heap blocks under ASan)"]
-VARIANTS = [("asan", ("dictcheck.c",), "dictcheck", {"extra_flags": "-finstrument-functions"})]
+VARIANTS = [("asan", ("dictcheck.c",), "dictcheck", {"extra_flags": "-finstrument-functions -O0"})]
 
 
 def plan(tier, seed):
